@@ -138,7 +138,7 @@ def com_prog(ctx):
     rk = C.outcome(lambda: C.parse(src, p["std"], False))
     tag = ""
     for kind, at, text in coms:
-        i = at if kind == "trail" else (at + 1 if kind == "semi" else at - 1)
+        i = at if kind in ("trail", "cont") else (at + 1 if kind == "semi" else at - 1)
         if 0 <= i < len(lines) - 1:
             a, b = lines[i].strip().split(" "), lines[i + 1].strip().split(" ")
             if a[0] == "do" and b[0] == "do" and len(a) > 1 and len(b) > 1 and a[1] == b[1] and a[1][:1].isdigit():
